@@ -74,8 +74,11 @@ func checkInterface(ifi *net.Interface, addrFunc func() ([]net.Addr, error)) err
 			continue
 		}
 
+		// IPv4 addresses are reported in their IPv4-mapped IPv6 form, which
+		// also counts as IPv6: an IPv4 link-local address does not make the
+		// link ready.
 		ip, ok := netip.AddrFromSlice(a.IP)
-		if ok && ip.Is6() && ip.IsLinkLocalUnicast() {
+		if ok && ip.Is6() && !ip.Is4In6() && ip.IsLinkLocalUnicast() {
 			foundLL = true
 			break
 		}
